@@ -1,4 +1,4 @@
-(* C10 main theorem: on inclass_C10 the model's output satisfies the property (Spec/C10.v C10_holds). *)
+(* C10 main theorem: on inclass_C10_noadd the model's output satisfies the property (Spec/C10.v C10_holds). *)
 From AV Require Import Base.ListSet Model.BatchFail Model.Batch Spec.C11 Spec.C10 Proofs.BatchFailProof Proofs.BatchProof.
 
 (* ------------------------------------------------------------------ small facts *)
@@ -179,14 +179,14 @@ Proof. induction l as [|[k1 c1] l IH]; simpl; [tauto|]. intros Hn H1 H2 E. inver
   - inversion H2; subst. exfalso. apply Hx. rewrite <- E. change (c_name c) with ((fun p : key * col => c_name (snd p)) (k, c)). apply in_map; auto.
   - auto. Qed.
 
-Lemma finish_names_nodup tsort s x : b_order s = [] -> finish tsort s = BOk x -> NoDup (map (fun p => c_name (snd p)) (b_cols s)).
-Proof. intros Ho. unfold finish, reorder. rewrite Ho. destruct (has_dup _) eqn:E; [discriminate|]. intros _. apply has_dup_false_NoDup; auto. Qed.
+Lemma finish_names_nodup tsort s x : b_order s = [] -> b_partial s = [] -> finish tsort s = BOk x -> NoDup (map (fun p => c_name (snd p)) (b_cols s)).
+Proof. intros Ho Hp. unfold finish, reorder. rewrite Ho, Hp. destruct (has_dup _) eqn:E; [discriminate|]. intros _. apply has_dup_false_NoDup; auto. Qed.
 
-Lemma finish_cm tsort s nd cm : b_order s = [] -> finish tsort s = BOk (nd, cm) ->
+Lemma finish_cm tsort s nd cm : b_order s = [] -> b_partial s = [] -> finish tsort s = BOk (nd, cm) ->
   cm = flat_map (fun p => match tr_expr (snd p) with Some (src, cast) => [(cur_name (b_cols s) (fst p), src, cast)] | None => [] end) (b_tr s).
-Proof. intros Ho. unfold finish, reorder. rewrite Ho. destruct (has_dup _); [discriminate|]. destruct (no_transfer _); [discriminate|].
+Proof. intros Ho Hp. unfold finish, reorder. rewrite Ho, Hp. destruct (has_dup _); [discriminate|]. destruct (no_transfer _); [discriminate|].
   match goal with |- context [existsb ?g (flat_map x_cols (b_idx s))] => destruct (existsb g (flat_map x_cols (b_idx s))); [discriminate|] end.
-  destruct (negb (forallb _ (b_newidx s))); [discriminate|]. destruct (negb (forallb _ (b_idx s ++ b_newidx s))); [discriminate|].
+  destruct (negb (forallb _ (b_newidx s))); [discriminate|]. destruct (negb (forallb _ (b_idx s ++ b_newidx s))); [discriminate|]. destruct (negb (forallb _ (b_idx s ++ b_newidx s))); [discriminate|].
   intros E. inversion E; auto. Qed.
 
 Section Cell.
@@ -199,8 +199,8 @@ Section Cell.
     copy_val cast dflt T0 cm r c' = fold_left (fun v t => cast t v) cs (src_val T0 r k').
   Proof.
     intros HI Hf Hnd Hin Htr Hcs.
-    pose proof (finish_names_nodup _ _ _ (inv_ord _ _ HI) Hf) as Hnn.
-    pose proof (finish_cm _ _ _ _ (inv_ord _ _ HI) Hf) as Hcm.
+    pose proof (finish_names_nodup _ _ _ (inv_ord _ _ HI) (inv_part _ _ HI) Hf) as Hnn.
+    pose proof (finish_cm _ _ _ _ (inv_ord _ _ HI) (inv_part _ _ HI) Hf) as Hcm.
     rewrite (inv_cols _ _ HI) in Hnn, Hcm.
     assert (Hk' : aget k' (tb_cols T') = Some c') by (apply in_aget; auto).
     assert (Hrn : cur_name (tb_cols T') k' = c_name c') by (unfold cur_name; rewrite Hk'; auto).
@@ -256,7 +256,7 @@ Lemma cell_agrees tsort i s seen T' nd cm r k' c' :
 Proof.
   intros Hn Hc He HI HCS Hf Hin.
   pose proof (edit_all_keys_nodup _ _ _ Hc He Hn) as Hn'.
-  pose proof (finish_names_nodup _ _ _ (inv_ord _ _ HI) Hf) as Hnn. rewrite (inv_cols _ _ HI) in Hnn.
+  pose proof (finish_names_nodup _ _ _ (inv_ord _ _ HI) (inv_part _ _ HI) Hf) as Hnn. rewrite (inv_cols _ _ HI) in Hnn.
   destruct (expected_cell i T' r k' c' Hn Hc He Hn' Hnn Hin) as [c0 [G0 Ex]]. rewrite Ex.
   assert (Hk' : aget k' (b_cols s) = Some c') by (rewrite (inv_cols _ _ HI); apply in_aget; auto).
   destruct (aget k' (b_tr s)) as [tr|] eqn:Gt.
@@ -393,11 +393,14 @@ Lemma untouched_names_spec i l : untouched_names i l = true -> forall k, In k l 
 Proof. unfold untouched_names, untouched_name. rewrite forallb_forall. intros H k Hk. specialize (H k Hk).
   apply negb_true_iff in H. apply mem_name_false; auto. Qed.
 
-Lemma untouched_ok_spec i T' :
+Lemma is_nil_true {A} (l:list A) : is_nil l = true -> l = [].
+Proof. destruct l; auto; discriminate. Qed.
+
+Lemma untouched_ok_spec i T' : j_partial i = [] ->
   wf_tbl2 (j_tbl i) = true -> forallb in_class (j_ops i) = true -> edit_all (j_ops i) (j_tbl i) = BOk T' ->
   untouched_ok i (describe T') = true.
 Proof.
-  intros Hwf Hc He. unfold wf_tbl2, wf_tbl in Hwf. rewrite !andb_true_iff in Hwf.
+  intros Hpart Hwf Hc He. unfold wf_tbl2, wf_tbl in Hwf. rewrite !andb_true_iff in Hwf.
   destruct Hwf as [[[[[W1 W2] W3] W4] W5] W6]. apply negb_true_iff in W4. apply has_dup_false_NoDup in W4.
   rewrite forallb_forall in W5, W6, W1.
   assert (Hkn : forall k c, In (k, c) (tb_cols (j_tbl i)) -> c_name c = k) by (intros k c H; apply name_eqb_eq; apply (W5 (k, c) H)).
@@ -407,7 +410,7 @@ Proof.
   destruct (untouched_spec _ _ _ Hc He) as [B0 [B1 [B2 B3]]].
   assert (Hcur' : forall k, ~ In k (mentioned (j_ops i)) -> cur_name (tb_cols T') k = k).
   { intros k Hk. unfold cur_name. rewrite (B1 k Hk). apply Hcur. }
-  unfold untouched_ok. rewrite !andb_true_iff. repeat split.
+  unfold untouched_ok. rewrite Hpart. cbn [is_nil]. rewrite !andb_true_iff. repeat split.
   - (* columns *)
     match goal with |- list_eqb col_eqb ?a ?b = true => assert (E : a = b); [|rewrite E; apply list_eqb_col_refl] end.
     cbn [describe n_cols].
@@ -448,51 +451,24 @@ Lemma command_error_always seen ops : command_error true seen ops = false.
 Proof. revert seen. induction ops as [|o ops IH]; intros seen; cbn [command_error]; auto. rewrite IH.
   destruct o; cbn; auto. rewrite andb_false_r. auto. Qed.
 
-Theorem main10 i : inclass_C10 i = true -> C10_holds i (model10 i).
-Proof.
-  unfold inclass_C10. rewrite !andb_true_iff. intros [[[[Ha Hwf] Hc2] Hty] Hs].
-  pose proof (forall_class2 _ Hc2) as Hc.
-  unfold specok in Hs. destruct (edit_all (j_ops i) (j_tbl i)) as [T'|] eqn:He; [|discriminate]. clear Hs.
-  assert (Hwf1 : wf_tbl (j_tbl i) = true /\ NoDup (akeys (tb_cols (j_tbl i)))).
-  { unfold wf_tbl2 in Hwf. rewrite !andb_true_iff in Hwf. destruct Hwf as [[[W1 W2] _] _]. split; auto.
-    apply has_dup_false_NoDup. apply negb_true_iff; auto. }
-  destruct Hwf1 as [Hwf1 Hn].
-  unfold model10. rewrite Ha, command_error_always. cbn [orb].
-  destruct (batch sa_tsort (j_tbl i) (j_ops i)) as [[nd cm]|e] eqn:Hb; [|exact I].
-  unfold batch in Hb. destruct (apply_ops (j_ops i) (init (j_tbl i))) as [s|] eqn:Hm; [|discriminate].
-  pose proof (ops_refine _ _ _ _ _ Hc (init_inv _ Hwf1) Hm He) as HI.
-  destruct (CS_ops (j_tbl i) _ _ _ [] Hc Hty (CS_init _ Hn) Hm) as [seen HCS].
-  destruct (finish_inv sa_tsort s T' nd cm HI Hb) as [End _].
-  cbn [C10_holds]. split; [reflexivity|]. split; [apply copy_rows_length|].
-  split; [rewrite End; apply survivors_ok; auto|].
-  split.
-  { (* rows: cell by cell *)
-    assert (E : copy_rows (cast_of i) (dflt_of i) (j_tbl i) nd cm (j_rows i) = expected_rows i nd); [|rewrite E; apply mseq_refl].
-    unfold copy_rows, expected_rows. apply map_ext. intros r. apply map_ext_in. intros c' Hin.
-    rewrite End in Hin. cbn [describe n_cols] in Hin. apply in_map_iff in Hin. destruct Hin as [[k' c''] [Es Hin]]. cbn in Es. subst c''.
-    apply (cell_agrees sa_tsort i s seen T' nd cm r k' c'); auto. }
-  split; [rewrite End; apply untouched_ok_spec; auto|].
-  split; [rewrite End; apply (requested_ok_spec _ _ (j_tbl i)); auto|].
-  split; [apply side_ok_noadd; auto|].
-  intros T'' He'. rewrite He in He'. inversion He'; subst T''. rewrite End. apply desc_equiv_w_refl.
-Qed.
+
 
 (* ------------------------------------------------------------------ C10_rows per cell, for every CAST / DEFAULT behaviour *)
 Theorem cell_value cast dflt i T' nd cm r k' c' :
-  inclass_C10 i = true -> edit_all (j_ops i) (j_tbl i) = BOk T' -> batch sa_tsort (j_tbl i) (j_ops i) = BOk (nd, cm) ->
+  inclass_C10_noadd i = true -> edit_all (j_ops i) (j_tbl i) = BOk T' -> batch sa_tsort (j_tbl i) (j_ops i) = BOk (nd, cm) ->
   In (k', c') (tb_cols T') ->
   In c' (n_cols nd) /\
   exists c0, aget k' (tb_cols (j_tbl i)) = Some c0 /\
     copy_val cast dflt (j_tbl i) cm r c' =
       (if N.eqb (affinity (c_ty c0)) (affinity (c_ty c')) then src_val (j_tbl i) r k' else cast (c_ty c') (src_val (j_tbl i) r k')).
 Proof.
-  unfold inclass_C10. rewrite !andb_true_iff. intros [[[[Ha Hwf] Hc2] Hty] _] He Hb Hin.
+  unfold inclass_C10_noadd. rewrite !andb_true_iff. intros [[[[[[[[Ha Hnv] Hp] Hta] Huc] Hwf] Hc2] Hty] _] He Hb Hin.
   pose proof (forall_class2 _ Hc2) as Hc.
   assert (Hwf1 : wf_tbl (j_tbl i) = true /\ NoDup (akeys (tb_cols (j_tbl i)))).
   { unfold wf_tbl2 in Hwf. rewrite !andb_true_iff in Hwf. destruct Hwf as [[[W1 W2] _] _]. split; auto.
     apply has_dup_false_NoDup. apply negb_true_iff; auto. }
   destruct Hwf1 as [Hwf1 Hn].
-  unfold batch in Hb. destruct (apply_ops (j_ops i) (init (j_tbl i))) as [s|] eqn:Hm; [|discriminate].
+  unfold batch, batch_with in Hb. change (init_with [] []) with init in Hb. destruct (apply_ops (j_ops i) (init (j_tbl i))) as [s|] eqn:Hm; [|discriminate].
   pose proof (ops_refine _ _ _ _ _ Hc (init_inv _ Hwf1) Hm He) as HI.
   destruct (CS_ops (j_tbl i) _ _ _ [] Hc Hty (CS_init _ Hn) Hm) as [seen HCS].
   destruct (finish_inv sa_tsort s T' nd cm HI Hb) as [End _].
@@ -512,3 +488,34 @@ Qed.
 Lemma cell_default cast dflt T cm r c : (forall e, In e cm -> fst (fst e) <> c_name c) -> copy_val cast dflt T cm r c = dflt c.
 Proof. intros H. unfold copy_val. destruct (find _ cm) as [[[dst src] cs]|] eqn:F; auto.
   apply find_some in F. destruct F as [Fin Fn]. cbn in Fn. apply name_eqb_eq in Fn. exfalso. apply (H _ Fin). cbn. auto. Qed.
+
+(* ------------------------------------------------------------------ the decider is complete as well *)
+Lemma desc_eqb_w_complete ad a b : desc_equiv_w ad a b -> desc_eqb_w ad a b = true.
+Proof.
+  unfold desc_equiv_w, desc_eqb_w. intros [H1 [H2 [H3 [H4 [H5 H6]]]]]. rewrite !andb_true_iff. repeat split.
+  - apply (seteqb_complete col_eqb col_eqb_eq); auto.
+  - apply (list_eqb_spec col_eqb col_eqb_eq); auto.
+  - unfold same_gaps_b. apply forallb_forall. intros c Hc. destruct (mem_name (c_name c) ad) eqn:E; auto.
+    apply ooname_eqb_eq. apply H3; auto.
+  - apply names_eqb_eq; auto.
+  - apply (seteqb_complete con_eqb con_eqb_eq); auto.
+  - apply (seteqb_complete index_eqb index_eqb_eq); auto.
+Qed.
+Lemma desc_eqb_p_complete a b : desc_equiv_p a b -> desc_eqb_p a b = true.
+Proof.
+  unfold desc_equiv_p, desc_eqb_p. intros [H1 [H2 [H3 H4]]]. rewrite !andb_true_iff. repeat split.
+  - apply (seteqb_complete col_eqb col_eqb_eq); auto.
+  - apply names_eqb_eq; auto.
+  - apply (seteqb_complete con_eqb con_eqb_eq); auto.
+  - apply (seteqb_complete index_eqb index_eqb_eq); auto.
+Qed.
+
+Theorem decider_complete10 i o : C10_holds i o -> check_C10 i o = true.
+Proof.
+  unfold check_C10, C10_holds. destruct (j_never i); auto.
+  destruct o as [nd rows tl|e]; cbn [check_C10_r C10_holds_r]; auto.
+  intros [H1 [H2 [H3 [H4 [H5 [H6 [H7 [H8 [H9 H10]]]]]]]]].
+  rewrite H1, H2, Nat.eqb_refl, H3, (mseqb_complete _ _ H4), H5, H6, H7, H8, H9. cbn.
+  destruct (edit_all (j_ops i) (j_tbl i)) as [T'|] eqn:He; auto. specialize (H10 T' eq_refl).
+  destruct (is_nil (j_partial i)); [apply desc_eqb_w_complete|apply desc_eqb_p_complete]; auto.
+Qed.
